@@ -227,7 +227,7 @@ def run_model_and_steps(chk, prop, tier, pkey=None):
         return
     if pk in ("C04", "C06"):
         # scans over several borders collecting (version, node) pairs vs splits, interior insert, collapse, removes (YkConc4 programs g-j)
-        for cfg in ((["g", "i", "o", "q"] if pk == "C04" else ["g", "h"]) if tier == "quick" else ["g", "h", "i", "j", "o", "q", "r", "s"]):
+        for cfg in ((["g", "i", "o", "q"] if pk == "C04" else ["g", "h", "t"]) if tier == "quick" else ["g", "h", "i", "j", "o", "q", "r", "s", "t"]):
             res = tlc("MC_Conc4", "MC_Conc4_%s.cfg" % cfg, workers=12, timeout=1500)
             chk.add_tlc(res, "YkConc4 config %s: full scan with node-version collection over 2-3 borders vs split / collapse / insert / remove (ScanOK, NvOK, LinOK, Quiescent, Termination under WF)" % cfg)
             if not res.ok:
